@@ -563,6 +563,7 @@ func w3Gen(r *rand.Rand, prop, tier string) *simrt.Case {
 	switch prop {
 	case "C17":
 		c.Config["nodes"] = 1
+		c.Config["max_steps"] = 30000 // one op and its read-back of both stores is about 450 scheduler steps
 		c.Program = append(c.Program, simrt.Op{Actor: 0, Kind: "differential", A: int64(r.Uint32()), B: int64(6 + r.IntN(30))})
 		if r.IntN(3) == 0 {
 			faults("etcd.unavail", "etcd.timeout_applied")
